@@ -154,10 +154,10 @@ fn main() {
     let args = parse_args();
     let mut rng = Rng::new(args.seed);
     let mut w = CaseWriter::new(
-        "From SwimV Require Import Lib.Hex Model.Value.\nOpen Scope Z_scope.",
-        "case",
-        &["corr_bad", "oracle_bad", "known_hits"],
-        args.shards.min(250),
+        "From SwimV Require Import Lib.Hex Model.Value.\nFrom Work Require Import prelude.\nOpen Scope Z_scope.",
+        "icase",
+        &["corr_bad_p pool", "oracle_bad_p pool", "known_hits_p pool"],
+        args.shards,
     );
     let sc = scalars();
     let mut pool = sc.clone();
@@ -180,15 +180,14 @@ fn main() {
 
     let mut emit = |i: usize, j: usize, k: usize, w: &mut CaseWriter| {
         let (x, y, z) = (&pool[i], &pool[j], &pool[k]);
+        let b = |x: bool| if x { "true" } else { "false" };
         let obs = format!(
-            "{{| o_eq_xy := {}; o_eq_yx := {}; o_eq_yz := {}; o_eq_xz := {}; o_eq_xx := {}; \
-             o_cmp_xy := {}; o_cmp_yx := {}; o_cmp_yz := {}; o_cmp_xz := {}; o_cmp_xx := {}; \
-             o_h_xy := {}; o_h_yz := {}; o_h_xz := {} |}}",
-            x == y, y == x, y == z, x == z, x == x,
+            "[{}; {}; {}; {}; {}], [{}; {}; {}; {}; {}], [{}; {}; {}]",
+            b(x == y), b(y == x), b(y == z), b(x == z), b(x == x),
             coq_z(code(x.cmp(y))), coq_z(code(y.cmp(x))), coq_z(code(y.cmp(z))), coq_z(code(x.cmp(z))), coq_z(code(x.cmp(x))),
-            hashes[i] == hashes[j], hashes[j] == hashes[k], hashes[i] == hashes[k]
+            b(hashes[i] == hashes[j]), b(hashes[j] == hashes[k]), b(hashes[i] == hashes[k])
         );
-        let term = format!("({}, {}, {}, {})", coq(x), coq(y), coq(z), obs);
+        let term = format!("({}%N, {}%N, {}%N, {})", i, j, k, obs);
         let human = format!("x={:?} y={:?} z={:?} -> {}", x, y, z, obs);
         *kinds.entry(format!("{:?}/{:?}", x.kind(), y.kind())).or_default() += 1;
         // non-trivial: different kinds that compare equal, or equal-but-distinct representations
@@ -204,7 +203,7 @@ fn main() {
 
     // every ordered pair of the pool appears as (x, y) at least once; z is drawn at random
     let n = pool.len();
-    let all_pairs = args.tier == "thorough" || n * n <= 4 * args.cases;
+    let all_pairs = true;
     if all_pairs {
         for i in 0..n {
             for j in 0..n {
@@ -220,6 +219,16 @@ fn main() {
         let k = if rng.chance(1, 2) { (j + rng.usize_below(7)) % n } else { rng.usize_below(n) };
         emit(i, j, k, &mut w);
     }
+    // the pool is compiled once (prelude.v) and shared by all shards
+    std::fs::create_dir_all(&args.out).unwrap();
+    std::fs::write(
+        args.out.join("prelude.v"),
+        format!(
+            "From SwimV Require Import Lib.Hex Model.Value.\nOpen Scope Z_scope.\nDefinition pool : list value := {}.\n",
+            coq_list(pool.iter().map(coq))
+        ),
+    )
+    .unwrap();
     w.finish(&args.out, "cases").unwrap();
     let meta = J::obj(vec![
         ("evaluations", J::I(w.len() as i128)),
